@@ -10,6 +10,7 @@ from abc import ABC, abstractmethod
 from collections import defaultdict
 from collections.abc import Iterable
 from copy import deepcopy
+from functools import partial
 from typing import Any, Generic, TypeVar, Union
 
 import torch
@@ -19,6 +20,11 @@ TSelf = TypeVar("TSelf", bound="Metric")
 TComputeReturn = TypeVar("TComputeReturn")
 # pyre-ignore[33]: Flexible key data type for dictionary
 TState = Union[torch.Tensor, list[torch.Tensor], dict[Any, torch.Tensor], int, float]
+
+
+def _zero_scalar(device: torch.device | None) -> torch.Tensor:
+    # default factory of dict states; a module-level function so that metrics stay picklable
+    return torch.tensor(0.0, device=device)
 
 
 class Metric(Generic[TComputeReturn], ABC):
@@ -140,7 +146,7 @@ class Metric(Generic[TComputeReturn], ABC):
                     self,
                     state_name,
                     defaultdict(
-                        lambda: torch.tensor(0.0, device=self.device),
+                        partial(_zero_scalar, self.device),
                         {
                             key: tensor.clone().to(self.device)
                             for key, tensor in default.items()
@@ -245,7 +251,7 @@ class Metric(Generic[TComputeReturn], ABC):
                     self,
                     state_name,
                     defaultdict(
-                        lambda: torch.tensor(0.0, device=device),
+                        partial(_zero_scalar, device),
                         {
                             key: tensor.to(device, *args, **kwargs)
                             for key, tensor in value.items()
